@@ -1,0 +1,17 @@
+// Copyright ©2024 The bíogo Authors. All rights reserved.
+// Use of this source code is governed by a BSD-style
+// license that can be found in the LICENSE file.
+
+//go:build verif
+
+package csi
+
+// VerifReg2bin exposes reg2bin.
+func VerifReg2bin(beg, end int64, minShift, depth uint32) uint32 {
+	return reg2bin(beg, end, minShift, depth)
+}
+
+// VerifReg2bins exposes reg2bins.
+func VerifReg2bins(beg, end int64, minShift, depth uint32) []uint32 {
+	return reg2bins(beg, end, minShift, depth)
+}
